@@ -1032,27 +1032,35 @@ func (c *c7ctx) literalRank(prods []*c7prod) {
 			continue
 		}
 		n++
-		// printer: lowest own rank of NodeValue over Long values
+		// printer: every receiver position goes through a wrapper that parenthesises a negative integer literal
 		c8 := &c8ctx{p: p, r: newReport("C08", "quick")}
-		minOwn := 99
-		if c8.anchors() {
-			longT := p.namedType(pTypes, "Long")
-			nv := p.namedType(pXAst, "NodeValue")
-			if longT != nil && nv != nil {
-				for _, row := range c8.printerRowsHyp(nv, map[string]types.Type{"t.Value": longT}) {
-					if row.abort == "" && row.own >= 0 && row.own < minOwn {
-						minOwn = row.own
-					}
-				}
-			}
-		}
 		construct := "parser." + fnShort(pr.fn) + ":" + pr.ctor.Name() + "~printer"
-		if minOwn == 99 {
-			r.Undec(rule, construct, p.pos(pr.pos), "the printer's rank for integer literals could not be extracted")
+		if !c8.anchors() {
+			r.Undec(rule, construct, p.pos(pr.pos), "the printer could not be anchored")
 			continue
 		}
-		r.Check(minOwn <= rk, rule, construct, p.pos(pr.pos), "the printer can rank a negative integer literal at "+itoa(minOwn)+" ≤ "+itoa(rk),
-			fnShort(pr.fn)+" (rank "+itoa(rk)+") builds an integer literal from a sign and digits, but the printer always ranks a literal as primary ("+itoa(minOwn)+"): a negative literal under a postfix operator — `(-1).f`, `(-1).isEmpty()` — is printed as `-1.f`, which does not parse back")
+		sub := newReport("C08", "quick")
+		c8.r = sub
+		c8.table()
+		c8.parenDecision()
+		bad := ""
+		nRecv := 0
+		for _, o := range sub.Obligs {
+			if o.Rule == "R8.2-receiver-literal" {
+				nRecv++
+				if o.Verdict != Discharged {
+					bad = o.Construct + ": " + o.Msg
+				}
+			}
+			if o.Rule == "R8.2-paren-decision" && strings.Contains(o.Construct, "~NodeValue") && o.Verdict != Discharged {
+				bad = o.Construct + ": " + o.Msg
+			}
+		}
+		if len(c8.receiverFns) == 0 {
+			bad = "the printer has no receiver wrapper: a negative integer literal under a postfix operator — `(-1).f`, `(-1).isEmpty()` — is printed as `-1.f`, which does not parse back"
+		}
+		r.Check(bad == "" && nRecv >= 8, rule, construct, p.pos(pr.pos), "the printer parenthesises a negative integer literal in all "+itoa(nRecv)+" receiver positions",
+			fnShort(pr.fn)+" (rank "+itoa(rk)+") builds an integer literal from a sign and digits, so a negative literal is a unary-level form; the printer must parenthesise it wherever it is the receiver of an attribute access or method call: "+bad)
 	}
 	if n == 0 {
 		r.OK(rule, "parser:no-low-literal", "-", "no literal is built below primary rank")
